@@ -97,6 +97,8 @@ def replay(body):
     if body['call'] == 'sparse_template_multi_stack':
         fail = stack_failure(np.array(a['template'], dtype=np.float64), a['H'], a['W'], [tuple(p) for p in a['placements']])
     elif body['call'] == 'sparse_circular_multi_stack':
+        for h in a.get('history', []):         # the calls made earlier in the recorded run (module-level state keyed by a derived size)
+            circ_failure(h['cy'], h['cx'], h['H'], h['W'], h['radius'], h.get('ctype', 'list'))
         fail = circ_failure(a['cy'], a['cx'], a['H'], a['W'], a['radius'], a.get('ctype', 'list'))
     else:
         fail = fv_failure(a['pattern'], a['H'], a['W'], a['peaks'])
@@ -151,6 +153,7 @@ def run(ctx):
 
     # (K2) disk template of the circular stack vs model (radii as rationals)
     exprs, meta = [], []
+    circ_hist = []          # every call of sparse_circular_multi_stack made by this run, in order (replays repeat them)
     for radius in [0.5, 1.0, 1.5, 2.0, 2.5, 3.2, 4.0, 4.999, 5.0]:
         fr = Fraction(*float(radius).as_integer_ratio())
         c = math.ceil(radius)
@@ -160,6 +163,7 @@ def run(ctx):
     bad = []
     for (radius, c), mv in zip(meta, vals):
         st = np.asarray(masks.sparse_circular_multi_stack(mask_index=[0], centerX=[c + 2], centerY=[c + 2], imageSizeX=2 * c + 5, imageSizeY=2 * c + 5, radius=radius).todense())[0]
+        circ_hist.append({'cy': [c + 2], 'cx': [c + 2], 'H': 2 * c + 5, 'W': 2 * c + 5, 'radius': radius, 'ctype': 'list'})
         if not np.array_equal(st[2:2 * c + 3, 2:2 * c + 3].astype(int), np.array(mv)) or st.sum() != np.array(mv).sum():
             bad.append(radius)
         ctx.count(1, key=('disk', radius))
@@ -210,8 +214,10 @@ def run(ctx):
         fail = circ_failure(cy, cx, H, W, radius, ctype)
         n += 3
         if fail:
-            ctx.violation('input', fail, {'kind': 'input', 'call': 'sparse_circular_multi_stack', 'args': {'cy': cy, 'cx': cx, 'H': H, 'W': W, 'radius': radius, 'ctype': ctype}, 'failure': fail})
+            ctx.violation('input', fail, {'kind': 'input', 'call': 'sparse_circular_multi_stack', 'args': {'cy': cy, 'cx': cx, 'H': H, 'W': W, 'radius': radius, 'ctype': ctype,
+                                                                                                           'history': list(circ_hist)}, 'failure': fail})
             break
+        circ_hist.append({'cy': cy, 'cx': cx, 'H': H, 'W': W, 'radius': radius, 'ctype': ctype})
         # feature vector, incl. patterns that are non-zero in their outermost row/column (search == radius)
         kind = str(rng.choice(['Circular', 'RadialGradient', 'BackgroundSubtraction']))
         radius = float(rng.choice([2.0, 3.0, 3.5]))
